@@ -218,6 +218,18 @@ static void renderEncapsulation(const FileSpec &f, int parent, const std::string
     }
 }
 
+static std::string noiseBlock(const FileSpec &f)
+{
+    if (!f.noise) {
+        return "";
+    }
+    // errors that concern no entity another model could import: a unit with a non-numeric exponent in units nobody
+    // refers to, and a connection that names a component which does not exist
+    std::string first = f.comps.empty() ? std::string("nothing") : f.comps[0].name;
+    return "  <units name=\"noise_units\">\n    <unit units=\"second\" exponent=\"abc\"/>\n  </units>\n"
+           "  <connection component_1=\"" + first + "\" component_2=\"noise_no_such_component\">\n    <map_variables variable_1=\"v0\" variable_2=\"v0\"/>\n  </connection>\n";
+}
+
 std::string render(const FileSpec &f, Offsets *off)
 {
     std::string s = "<?xml version=\"1.0\" encoding=\"UTF-8\"?>\n";
@@ -289,6 +301,7 @@ std::string render(const FileSpec &f, Offsets *off)
     if (!enc.empty()) {
         s += "  <encapsulation>\n" + enc + "  </encapsulation>\n";
     }
+    s += noiseBlock(f);
     s += "</model>";
     size_t afterRoot = s.size();
     size_t inLast = s.size() - 3;
@@ -351,6 +364,7 @@ std::string render11(const FileSpec &f)
     if (!enc.empty()) {
         s += "  <group>\n    <relationship_ref relationship=\"encapsulation\"/>\n" + enc + "  </group>\n";
     }
+    s += noiseBlock(f);
     s += "</model>\n";
     return s;
 }
@@ -484,7 +498,7 @@ struct Resolver
             fail(Verdict::UNSAT, "not well-formed " + path + " (" + v->tag + ")");
             return nullptr;
         }
-        if (v->load == Load::NONCELLML || (v->load == Load::CELLML11 && strict)) {
+        if (v->load == Load::NONCELLML || ((v->load == Load::CELLML11 || v->load == Load::NOISY11) && strict)) {
             scratch = FileSpec();
             scratch.path = v->spec.path;
             scratch.dir = v->spec.dir;
